@@ -77,6 +77,8 @@ def run_split(w, dim):
         return 'ValueError', None
     except KeyError as e:
         return 'KeyError', None
+    except Exception as e:
+        return 'raise:%s: %s' % (type(e).__name__, e), None
     out = {'pieces': [], 'affs': [], 'best': []}
     for p in pieces:
         d = int_data(p.nii_img.dataobj)
@@ -200,6 +202,10 @@ def corr(rep, pid, tier, r):
                 continue
             if got == 'nonint':
                 cs['skipped'] += 1
+                continue
+            if isinstance(got, str) and got.startswith('raise:'):
+                rep.failure('split(%s) of a valid wrapper of shape %s raised %s' % (dim, shape, got[6:]),
+                            {'tag': region + '/raise', 'case': case, 'dim': dim})
                 continue
             reqs.append({'op': 'wrap_split', 'arr': darr, 'dim': dim, 'sd': case['sd'], 'hdr': hreq})
             expect.append(('split', region, case, dim, got))
